@@ -246,6 +246,7 @@ def run(ctx: core.Ctx):
                     if not (okb and oks and ds["sgrid"].dtype == np.float32):
                         ctx.fail("whitsvc", dict(y=yy.tolist(), p=pp, srange=sr.tolist()), dict(sgrid=float(got_sg)), dict(sgrid=float(sg)),
                                  note="sgrid = float32(log10(lopt)); band = kernel band")
+    core.acc_dispatch(ctx, ['whitsvc'])
     ctx.trusted += ["native model driver (Hdc/Model/Smooth.lean at Float)", "harness/props/c04.py oracle (V-curve recomputed with the compiled ws2d core)"]
 
 
